@@ -1,4 +1,138 @@
+(* Props/C45.v -- Command-line arguments reach commands unchanged.
+   Statements only; each is closed by [exact] of a lemma proved in Proofs/Command*.v.
+   Model: Model/Command.v (command_lexer.expr / quote / unquote, CommandManager.parse_partial /
+   execute / call_strings, Command.prepare_args, parsearg, types._StrType.parse).
+   kt is pyparsing keepTabs of command_lexer.expr (False on the unrepaired tree).
+
+   THE FULL STATEMENT IS FALSE OF THE FAITHFUL MODEL (and of the code); five families:
+     both-quotes-x22, tab-expanded, unicode-space-dropped   (first half, any parameter type)
+     str-escape-interpreted                                  (first half, str-typed parameters)
+     adjacent-tokens-split, unicode-space-dropped            (second half)
+   Each has a _refuted theorem; the _partial / _exact theorems hold on the complement.
+
+   Guards (boolean, defined in Proofs/CommandRoundtrip.v, CommandExec.v, CommandSplit.v):
+     cmd_ok cmd   = cmd is a non-empty bare word: no quote, no lexer white space, not isspace
+     has_both s   = s contains both quote characters
+     uspace_only s= s is non-empty, all characters Unicode white space, none of SP CR LF TAB
+     no_tab s     = s contains no TAB
+     good kt s    = not has_both s, not uspace_only s, and (kt or no_tab s)
+     good_str kt s= no backslash in s, not uspace_only s, and (kt or no_tab s)
+     cmd_line cmd ss = cmd followed by (SP quote(s)) for every s in ss   (what the console builds)
+     line_ok lead a0 rest trail = lead/trail are lexer white space (maybe empty), separators are
+        non-empty lexer white space, every atom is a bare word (as cmd_ok) or q body q with q not in body *)
 From Coq Require Import List Bool NArith.
-From MV Require Import Base.Bytes Model.Command.
-Theorem C45_nonvacuous : True. Proof. exact I. Qed.
+From MV Require Import Base.Bytes Model.Command Proofs.CommandLex Proofs.CommandExec
+  Proofs.CommandRoundtrip Proofs.CommandSplit.
+Import ListNotations.
+
+(* The lexer accepts every string (never ParseException, never out of fuel) and is lossless:
+   the tokens concatenate to the (tab-expanded unless kt) input and none is empty. *)
+Theorem C45_lexer_total : forall (kt : bool) (s : str),
+  exists ts, parse_string kt s = LexOk ts
+             /\ concat ts = (if kt then s else expandtabs s)
+             /\ Forall (fun t => t <> []) ts.
+Proof. exact parse_string_total. Qed.
+Print Assumptions C45_lexer_total.
+
+(* First half, partial: any number of good strings, quoted and joined as the console does,
+   reach a command with identity-typed (types.CmdArgs) parameters unchanged. *)
+Theorem C45_roundtrip_partial : forall (kt : bool) (commands : str -> option signature) (cmd : str) (ss : list str),
+  cmd_ok cmd = true -> commands cmd = Some (SigVar TArg) ->
+  forallb (good kt) ss = true ->
+  execute kt commands (cmd_line cmd ss) = Received cmd ss.
+Proof. exact roundtrip_arg. Qed.
+Print Assumptions C45_roundtrip_partial.
+
+(* The guard is exact: a single quoted argument reaches call_strings unchanged if and only if
+   it is good.  So every string with both quotes, every bare Unicode-space string and (without
+   keepTabs) every string with a TAB is altered or lost. *)
+Theorem C45_roundtrip_exact : forall (kt : bool) (cmd s : str),
+  cmd_ok cmd = true ->
+  (execute_call kt (cmd_line cmd [s]) = CallStrings cmd [s] <-> good kt s = true).
+Proof. exact roundtrip_exact. Qed.
+Print Assumptions C45_roundtrip_exact.
+
+Theorem C45_roundtrip_refuted_both_quotes :
+  exists kt cmd s, cmd_ok cmd = true /\ execute_call kt (cmd_line cmd [s]) <> CallStrings cmd [s].
+Proof. exact refuted_both_quotes. Qed.
+Print Assumptions C45_roundtrip_refuted_both_quotes.
+
+Theorem C45_roundtrip_refuted_tab :
+  exists cmd s, cmd_ok cmd = true /\ has_both s = false
+    /\ execute_call false (cmd_line cmd [s]) <> CallStrings cmd [s].
+Proof. exact refuted_tab. Qed.
+Print Assumptions C45_roundtrip_refuted_tab.
+
+Theorem C45_roundtrip_refuted_unicode_space :
+  exists kt cmd s, cmd_ok cmd = true /\ has_both s = false /\ no_tab s = true
+    /\ execute_call kt (cmd_line cmd [s]) = CallStrings cmd [].
+Proof. exact refuted_unicode_space. Qed.
+Print Assumptions C45_roundtrip_refuted_unicode_space.
+
+(* str-typed parameters: strings without backslash (both quotes allowed: escape parsing undoes
+   the x22 rewriting) arrive unchanged ... *)
+Theorem C45_str_roundtrip_partial : forall (kt : bool) (commands : str -> option signature) (cmd : str) (ss : list str),
+  cmd_ok cmd = true -> commands cmd = Some (SigVar TStr) ->
+  forallb (good_str kt) ss = true ->
+  execute kt commands (cmd_line cmd ss) = Received cmd ss.
+Proof. exact roundtrip_str. Qed.
+Print Assumptions C45_str_roundtrip_partial.
+
+(* ... but a good string containing a backslash escape does not. *)
+Theorem C45_str_roundtrip_refuted :
+  exists kt commands cmd s, cmd_ok cmd = true /\ commands cmd = Some (SigVar TStr) /\ good kt s = true
+    /\ execute kt commands (cmd_line cmd [s]) <> Received cmd [s].
+Proof. exact refuted_str_escape. Qed.
+Print Assumptions C45_str_roundtrip_refuted.
+
+(* Second half, partial: on lines made of atoms separated by lexer white space the non-Space
+   parts of parse_partial are exactly the words of the character-level specification spec_words
+   (Model/Command.v: split at white space outside quotes, nowhere else), they are the atoms, and
+   execute passes their unquoted values on. *)
+Theorem C45_split_partial : forall (kt : bool) (lead : str) (a0 : atom) (rest : list (str * atom)) (trail : str),
+  line_ok lead a0 rest trail = true ->
+  kt = true \/ no_tab (line_text lead a0 rest trail) = true ->
+  exists parts,
+    parse_partial kt (line_text lead a0 rest trail) = PPOk parts
+    /\ nonspace_values parts = spec_words (line_text lead a0 rest trail)
+    /\ nonspace_values parts = atom_text a0 :: map (fun it => atom_text (snd it)) rest
+    /\ execute_call kt (line_text lead a0 rest trail)
+       = CallStrings (atom_value a0) (map (fun it => atom_value (snd it)) rest).
+Proof. exact split_partial. Qed.
+Print Assumptions C45_split_partial.
+
+(* Arguments are also split where there is no white space (quote boundaries) ... *)
+Theorem C45_split_refuted_adjacent :
+  exists line parts, no_tab line = true
+    /\ parse_partial true line = PPOk parts
+    /\ spec_words line = [[116; 46; 114; 97; 119]; [97; 34; 98; 34; 99]]%N
+    /\ nonspace_values parts = [[116; 46; 114; 97; 119]; [97]; [34; 98; 34]; [99]]%N.
+Proof. exact split_refuted_adjacent. Qed.
+Print Assumptions C45_split_refuted_adjacent.
+
+(* ... and a word of Unicode white space is not an argument at all. *)
+Theorem C45_split_refuted_unicode_space :
+  exists line parts, no_tab line = true
+    /\ parse_partial true line = PPOk parts
+    /\ spec_words line = [[116; 46; 114; 97; 119]; [11]]%N
+    /\ nonspace_values parts = [[116; 46; 114; 97; 119]]%N.
+Proof. exact split_refuted_unicode_space. Qed.
+Print Assumptions C45_split_refuted_unicode_space.
+
+(* The hypotheses are satisfiable on non-trivial values: a good string that needs quoting, two
+   arguments, and a both-quotes string through a str-typed command, all with kt = false. *)
+Theorem C45_nonvacuous :
+  good false w_ok = true /\ quote w_ok <> w_ok
+  /\ execute false w_commands (cmd_line w_cmd [w_ok; w_cmd]) = Received w_cmd [w_ok; w_cmd]
+  /\ good_str false w_both = true
+  /\ execute false w_commands (cmd_line [116; 46; 115; 116; 114]%N [w_both])
+     = Received [116; 46; 115; 116; 114]%N [w_both].
+Proof. exact sample_roundtrips. Qed.
 Print Assumptions C45_nonvacuous.
+
+Theorem C45_split_nonvacuous :
+  line_ok w_line_lead w_line_a0 w_line_rest w_line_trail = true
+  /\ no_tab (line_text w_line_lead w_line_a0 w_line_rest w_line_trail) = true
+  /\ length (spec_words (line_text w_line_lead w_line_a0 w_line_rest w_line_trail)) = 4%nat.
+Proof. exact split_sample. Qed.
+Print Assumptions C45_split_nonvacuous.
